@@ -11,7 +11,7 @@ ASSUMPTIONS = [
     'symbolic-knot instances: distinct knots at least 1e-3 apart',
     'basis_function_ders(_one) are called with order <= degree (their documented contract); the single-function derivative variant is compared for parameters before the domain end',
 ]
-OUTSIDE = ['degrees > 5 (quick) / 7 (thorough)', 'more than 3 distinct interior knots', 'symbolic knots for degree > 3']
+OUTSIDE = ['degrees > 5 (quick) / 7 (thorough); derivative variants: degrees > 5 and degree 5 with more than one interior knot', 'more than 3 distinct interior knots', 'symbolic knots for degree > 3']
 BOUNDS = {'quick': 'p=1..5, KQ patterns + unclamped; symbolic knots p<=2; generate p=1..7 n<=p+8',
           'thorough': 'p=1..7, all patterns <=3 interior knots (p<=4) / <=2 (p>=5); symbolic knots p<=3'}
 
@@ -197,14 +197,16 @@ def instances(tier):
         for m in pats:
             kv = fam.pattern(p, m)
             out.append(inst('basis p%d m%s' % (p, m), h_basis, min_paths=_spans(kv, p) + 1, p=p, kv=kv))
-            out.append(inst('ders p%d m%s' % (p, m), h_ders, min_paths=_spans(kv, p), p=p, kv=kv))
+            if p <= 5 and (p <= 4 or len(m) <= 1):
+                out.append(inst('ders p%d m%s' % (p, m), h_ders, min_paths=_spans(kv, p), timeout=400, p=p, kv=kv))
         out.append(inst('basis p%d unclamped' % p, h_basis, min_paths=2, p=p, kv=fam.unclamped_uniform(p, p + 3)))
         if p <= 3:
             out.append(inst('basis p%d m(%d,) full-multiplicity knot' % (p, p + 1), h_basis, min_paths=2, p=p, kv=fam.pattern(p, (p + 1,))))
             out.append(inst('basis p%d m(1,%d) full-multiplicity knot' % (p, p + 1), h_basis, min_paths=3, p=p, kv=fam.pattern(p, (1, p + 1))))
             for m in sorted(set([(1,), (p,), (1, 2) if p >= 2 else (1, 1)])):
                 out.append(inst('plural p%d m%s' % (p, m), h_plural, timeout=600, p=p, kv=fam.pattern(p, m)))
-        out.append(inst('ders p%d unclamped' % p, h_ders, min_paths=2, p=p, kv=fam.unclamped_unit(p, p + 2)))
+        if p <= 5:
+            out.append(inst('ders p%d unclamped' % p, h_ders, min_paths=2, timeout=400, p=p, kv=fam.unclamped_unit(p, p + 2)))
         out.append(inst('basis p%d domain[2,5]' % p, h_basis, min_paths=2, p=p, kv=fam.pattern(p, (1, min(2, p)), 2, 5)))
     symk = [(1, (1,)), (1, (1, 1)), (2, (1,)), (2, (2,))] if quick else \
         [(1, (1,)), (1, (1, 1)), (2, (1,)), (2, (2,)), (2, (1, 1)), (3, (1,)), (3, (2,)), (3, (1, 1))]
